@@ -84,7 +84,9 @@ class QAveragePooling2D(AveragePooling2D):
       if isinstance(self.pool_size, int):
         pool_area = self.pool_size * self.pool_size
       else:
-        pool_area = np.prod(self.pool_size)
+        # a python int: 1.0 / np.int64 is a numpy float64, which quantizers
+        # cannot mix with their float32 constants in graph mode.
+        pool_area = int(np.prod(self.pool_size))
 
       # Calculates the pooling average of x*pool_area
       x = super(QAveragePooling2D, self).call(inputs*pool_area)
